@@ -62,6 +62,12 @@ impl<V> Frame<V> {
 
     /// Generate image fragments of the frame
     fn fragments(&self, ctx: &ViewContext) -> Fragments {
+        // NOTE: cells without pixel area (terminal reported no or too small pixel size)
+        //       can not show image fragments, and rasterizer panics on an empty image
+        if ctx.pixels_per_cell.is_empty() {
+            return Arc::new(Default::default());
+        }
+
         // return cached value if available
         let id = self.identfier(ctx);
         let fragments = {
